@@ -22,7 +22,8 @@ ASSUMPTIONS = [
     'population dimension names are set to the likelihood parameter names (as ProblemModellingController does)',
     'individual parameter values are positive (support of the multiplicative / log-normal error models)']
 REQUIRED = ['kind:gauss', 'kind:lognorm', 'kind:trunc', 'kind:pooled', 'kind:hetero', 'cov', 'comp', 'red', 'bare',
-            'noncentered', 'mixed_special', 'special_not_last', 'n_ids=1', 'noncentered_zero_scale', 'reduced_part:all_fixed', 'hetero_last_explicit']
+            'noncentered', 'mixed_special', 'special_not_last', 'n_ids=1', 'noncentered_zero_scale', 'reduced_part:all_fixed', 'hetero_last_explicit',
+            'unneeded_covariates:bare_noncentered']
 
 
 @st.composite
@@ -60,6 +61,7 @@ def extra_cases(tier):
                 [0.6 + 0.05 * i for i in range(n_ids)]
             out.append(dict(pop=pop, n_ids=n_ids, lls=[ll3] * n_ids, ids=None, cov=None, vec=bottom + top,
                             prior=[dict(kind='lognormal', a=0.0, b=1.0)] * len(top), late=False, explicit_last=True))
+    out += hbuild.unneeded_cov_cases()
     return out
 
 
